@@ -81,27 +81,28 @@ Print Assumptions C06_tags_match_model.
 (* ============================================================ the model against the specification *)
 
 (* C06_accepts, proved part.  Guard: the destination is a top-level variable of one of the types
-   [proved_scalar] (bool, the 11 integer kinds, string, []byte, time.Time, uuid.UUID, big.Int,
-   big.Rat) and the stream is one scalar token (every tag except a, m, c, o, r, E) with real
+   [proved_scalar] (all 13 scalar types: bool, the 11 integer kinds, float32/64, complex64/128,
+   string, []byte, time.Time, uuid.UUID, big.Int, big.Float, big.Rat) and the stream is one scalar token (every tag except a, m, c, o, r, E) with real
    calendar fields, a hexadecimal uuid and 'i' within 32 bits.
-   Premises about the oracles (standard library / hardware, supplied as a table): the table has
-   the entries asked for; converting an integral in-range double to an integer is exact for every
-   width; uuid.Parse of the canonical 36-character form is its lower-case form.
-   Not proved here (covered by the correspondence run on every check): float32/64, complex and
-   big.Float destinations (they need further laws about strconv), interface{}, pointers and
-   containers, references. *)
+   Premises about the oracles (standard library / hardware, supplied as a table): [oracle_total] -
+   the table has the entries asked for; [oracle_laws] - converting an integral in-range double to an
+   integer is exact for every width; uuid.Parse of the canonical 36-character form is its lower-case
+   form; a single digit parses to the float whose text is that digit (strconv and big.Float);
+   big.NewFloat(float64(i)) and big.Float.SetString agree on 32-bit integers.
+   Not proved here (covered by the correspondence run on every check): interface{}, pointers beyond
+   one level and containers, references. *)
 Theorem C06_accepts_partial :
   forall orc opts te f t w d v,
-    oracle_total orc -> law_f2i orc -> law_uuid orc ->
+    oracle_total orc -> oracle_laws orc ->
     proved_scalar t = true -> scalar_tok w = true -> wf_tok w = true ->
     denote_top w = Some d ->
     representable orc opts te (S f) t d = RSome v ->
     exists v', dec_top orc opts te (S (S f)) t w = OOk v' /\ xeqv spec_fuel v' v = true.
 Proof.
-  intros orc opts te f t w d v Ho L1 L2 Ht Hs Hw Hd Hr.
+  intros orc opts te f t w d v Ho Hl Ht Hs Hw Hd Hr.
   rewrite (denote_top_scalar w Hs) in Hd. inversion Hd; subst d.
   rewrite (representable_scalar orc opts te f t w (proved_scalar_is_scalar t Ht) Hs) in Hr.
-  exact (accepts_scalar orc opts te f t w v Ho L1 L2 Ht Hs Hw Hr).
+  exact (accepts_scalar orc opts te f t w v Ho Hl Ht Hs Hw Hr).
 Qed.
 Print Assumptions C06_accepts_partial.
 
@@ -110,49 +111,49 @@ Print Assumptions C06_accepts_partial.
    integer or big.Int destination is integral (and in range). *)
 Theorem C06_refuses_partial :
   forall orc opts te f t w d,
-    oracle_total orc ->
+    oracle_total orc -> oracle_laws orc ->
     proved_scalar t = true -> scalar_tok w = true -> wf_tok w = true ->
     denote_top w = Some d ->
     representable orc opts te (S f) t d = RNone ->
     fits orc t w = true ->
     exists e, dec_top orc opts te (S (S f)) t w = OErr e.
 Proof.
-  intros orc opts te f t w d Ho Ht Hs Hw Hd Hr Hf.
+  intros orc opts te f t w d Ho Hl Ht Hs Hw Hd Hr Hf.
   rewrite (denote_top_scalar w Hs) in Hd. inversion Hd; subst d.
   rewrite (representable_scalar orc opts te f t w (proved_scalar_is_scalar t Ht) Hs) in Hr.
-  exact (refuses_scalar_partial orc opts te f t w Ho Ht Hs Hw Hr Hf).
+  exact (refuses_scalar_partial orc opts te f t w Ho Hl Ht Hs Hw Hr Hf).
 Qed.
 Print Assumptions C06_refuses_partial.
 
-(* the same behind a pointer: destinations *T for T in bool, the 11 integer kinds, string, []byte,
-   time.Time, uuid.UUID ([proved_ptr]); a null token gives a nil pointer, anything else a pointer to
+(* the same behind a pointer: destinations *T for T in bool, the 11 integer kinds, float32/64, complex64/128,
+   string, []byte, time.Time, uuid.UUID ([proved_ptr]); a null token gives a nil pointer, anything else a pointer to
    the value a T destination would receive - or the same error *)
 Theorem C06_accepts_behind_pointer_partial :
   forall orc opts te f t w d v,
-    oracle_total orc -> law_f2i orc -> law_uuid orc ->
+    oracle_total orc -> oracle_laws orc ->
     proved_ptr t = true -> scalar_tok w = true -> wf_tok w = true ->
     denote_top w = Some d ->
     representable orc opts te (S (S f)) (TPtr t) d = RSome v ->
     exists v', dec_top orc opts te (S (S f)) (TPtr t) w = OOk v' /\ xeqv spec_fuel v' v = true.
 Proof.
-  intros orc opts te f t w d v Ho L1 L2 Ht Hs Hw Hd Hr.
+  intros orc opts te f t w d v Ho Hl Ht Hs Hw Hd Hr.
   rewrite (denote_top_scalar w Hs) in Hd. inversion Hd; subst d.
-  exact (accepts_ptr_scalar orc opts te f t w v Ho L1 L2 Ht Hs Hw Hr).
+  exact (accepts_ptr_scalar orc opts te f t w v Ho Hl Ht Hs Hw Hr).
 Qed.
 Print Assumptions C06_accepts_behind_pointer_partial.
 
 Theorem C06_refuses_behind_pointer_partial :
   forall orc opts te f t w d,
-    oracle_total orc ->
+    oracle_total orc -> oracle_laws orc ->
     proved_ptr t = true -> scalar_tok w = true -> wf_tok w = true ->
     denote_top w = Some d ->
     representable orc opts te (S (S f)) (TPtr t) d = RNone ->
     fits orc t w = true ->
     exists e, dec_top orc opts te (S (S f)) (TPtr t) w = OErr e.
 Proof.
-  intros orc opts te f t w d Ho Ht Hs Hw Hd Hr Hf.
+  intros orc opts te f t w d Ho Hl Ht Hs Hw Hd Hr Hf.
   rewrite (denote_top_scalar w Hs) in Hd. inversion Hd; subst d.
-  exact (refuses_ptr_scalar_partial orc opts te f t w Ho Ht Hs Hw Hr Hf).
+  exact (refuses_ptr_scalar_partial orc opts te f t w Ho Hl Ht Hs Hw Hr Hf).
 Qed.
 Print Assumptions C06_refuses_behind_pointer_partial.
 
@@ -300,33 +301,51 @@ Print Assumptions C06_repaired_reference_to_object_map.
 
 (* ============================================================ the hypotheses are satisfiable *)
 
-(* a complete oracle table that satisfies the laws (every function reports failure), so the guarded
-   theorems are not vacuous; the integer, string, bytes, time and uuid cells do not consult it *)
+(* a complete oracle table that satisfies the laws (single digits parse to themselves, canonical uuids to
+   their lower-case form, every other request reports failure), so the guarded theorems are not vacuous *)
+Definition single_digit (a : bytes) : bool := match a with [x] => is_digit x | _ => false end.
+Definition fn_is (fn : bytes) (names : list bytes) : bool := existsb (bytes_eqb fn) names.
 Definition failing_oracle : bytes -> bytes -> option bytes := fun fn arg =>
-  if bytes_eqb fn (bs "uuid") && uuid_syntax arg then Some (b_plus :: uuid_lower arg) else Some (bs "!").
+  if fn_is fn [bs "pf32"; bs "pf64"] && single_digit arg then Some (b_plus :: "F"%byte :: arg)
+  else if fn_is fn [bs "bf"; bs "nf"] && single_digit arg then Some (b_plus :: arg)
+  else if bytes_eqb fn (bs "uuid") && uuid_syntax arg then Some (b_plus :: uuid_lower arg)
+  else Some (bs "!").
 
-Lemma failing_oracle_call fn arg :
-  o_call failing_oracle fn arg =
-  if bytes_eqb fn (bs "uuid") && uuid_syntax arg then OVal (uuid_lower arg) else OFail.
-Proof. unfold o_call, failing_oracle. destruct (bytes_eqb fn (bs "uuid") && uuid_syntax arg); reflexivity. Qed.
-
-Lemma not_uuid_fn fn arg : bytes_eqb fn (bs "uuid") = false -> o_call failing_oracle fn arg = OFail.
-Proof. intros H. rewrite failing_oracle_call, H. reflexivity. Qed.
-
-Example oracle_premises_satisfiable : oracle_total failing_oracle /\ law_f2i failing_oracle /\ law_uuid failing_oracle.
+Lemma failing_oracle_other fn arg :
+  fn_is fn [bs "pf32"; bs "pf64"; bs "bf"; bs "nf"; bs "uuid"] = false -> o_call failing_oracle fn arg = OFail.
 Proof.
-  split; [|split].
+  unfold fn_is. cbn [existsb]. intros H. repeat (apply orb_false_elim in H; destruct H as [? H]).
+  unfold o_call, failing_oracle, fn_is. cbn [existsb].
+  repeat match goal with E : bytes_eqb fn _ = false |- _ => rewrite E; clear E end. reflexivity.
+Qed.
+
+Lemma digit_text d : (d < 10)%N -> single_digit (to_decZ (Z.of_N d)) = true.
+Proof. intros H. apply N.ltb_lt in H. split_digit d H; reflexivity. Qed.
+
+Example oracle_premises_satisfiable : oracle_total failing_oracle /\ oracle_laws failing_oracle.
+Proof.
+  split.
   - constructor.
-    + intros b t. unfold o_float. destruct b; rewrite not_uuid_fn by reflexivity; exact I.
-    + intros k t. unfold o_f2i, o_int. rewrite not_uuid_fn by (destruct k; reflexivity). exact I.
-    + intros t. unfold o_int. rewrite not_uuid_fn by reflexivity. exact I.
-    + intros fn a. unfold o_text. rewrite failing_oracle_call.
-      destruct (bytes_eqb fn (bs "uuid") && uuid_syntax a); exact I.
-    + intros b s. unfold o_complex. destruct b; rewrite not_uuid_fn by reflexivity; exact I.
-    + intros a. unfold o_time. rewrite not_uuid_fn by reflexivity. exact I.
-    + intros a. unfold o_time. rewrite not_uuid_fn by reflexivity. exact I.
-  - intros k txt z H. unfold o_f2i, o_int in H. rewrite not_uuid_fn in H by (destruct k; reflexivity). discriminate.
-  - intros s Hs. unfold o_text. rewrite failing_oracle_call. rewrite Hs. reflexivity.
+    + intros b t. unfold o_float, o_call, failing_oracle. destruct b; cbn [fn_is existsb bytes_eqb Byte.eqb andb orb];
+        destruct (single_digit t); cbn; exact I.
+    + intros k t. unfold o_f2i, o_int. rewrite failing_oracle_other by (destruct k; reflexivity). exact I.
+    + intros t. unfold o_int. rewrite failing_oracle_other by reflexivity. exact I.
+    + intros fn a. unfold o_text, o_call, failing_oracle.
+      destruct (fn_is fn [bs "pf32"; bs "pf64"] && single_digit a); [cbn; exact I|].
+      destruct (fn_is fn [bs "bf"; bs "nf"] && single_digit a); [cbn; exact I|].
+      destruct (bytes_eqb fn (bs "uuid") && uuid_syntax a); cbn; exact I.
+    + intros b s. unfold o_complex. destruct b; rewrite failing_oracle_other by reflexivity; exact I.
+    + intros a. unfold o_time. rewrite failing_oracle_other by reflexivity. exact I.
+    + intros a. unfold o_time. rewrite failing_oracle_other by reflexivity. exact I.
+  - constructor.
+    + intros k txt z H. unfold o_f2i, o_int in H. rewrite failing_oracle_other in H by (destruct k; reflexivity). discriminate.
+    + intros s Hs. unfold o_text, o_call, failing_oracle. cbn [fn_is existsb bytes_eqb Byte.eqb andb orb]. rewrite Hs. reflexivity.
+    + intros b d Hd. pose proof (digit_text d Hd) as E. unfold o_float, o_call, failing_oracle.
+      destruct b; cbn [fn_is existsb bytes_eqb Byte.eqb andb orb]; rewrite E; reflexivity.
+    + intros d Hd. pose proof (digit_text d Hd) as E. unfold o_text, o_call, failing_oracle.
+      cbn [fn_is existsb bytes_eqb Byte.eqb andb orb]. rewrite E. reflexivity.
+    + intros z Hz. unfold o_text, o_call, failing_oracle. cbn [fn_is existsb bytes_eqb Byte.eqb andb orb].
+      destruct (single_digit (to_decZ z)); reflexivity.
 Qed.
 
 Example accepts_instance :   (* l5; into int64, s1"7" into uint8, g{...} into uuid are inside the guards *)
